@@ -21,9 +21,8 @@
     * added errors         : `c09_no_runtimeError`, `c09_collision_witness`, `c09_defaults_overwritten_witness`
     * the `init=False` branch of the code (parsing.py:964) would leak a dotted key: `c09_init_false_leaks_witness`
       (no real wrapper has such a field: dataclass_wrapper.py:77), hence the named hypothesis `AllInit`.
-    * other open findings  : `c09_second_postprocess_witness` (parse_intermixed_args runs the post-processing twice),
-                             `SetDefaultsFull` / `c09_set_defaults_witness` / `c09_set_defaults_partial`
-                             (`set_defaults(config_path=…)` is swallowed)
+    * other open finding   : `c09_second_postprocess_witness` (parse_intermixed_args runs the post-processing twice)
+    * set_defaults routing : `c09_set_defaults`, `c09_set_defaults_full` (full since fix a66f307)
     * `default=argparse.SUPPRESS` registrations are the named exclusion `NoSuppress` of the "one attribute per
       destination" clause: `c09_suppress_witness`.
 -/
@@ -651,38 +650,27 @@ theorem c09_suppress_witness : ¬ RootsFull := by
 example : postprocess palg psSup [(sFoo, one), (sCfgX, two)] =
     .ok { attrs := [(sFoo, one), (sCfg, .dict [(['x'], two)])], subgroups := none } := by rfl
 
-/-- `parser.set_defaults(**kw)` behaves like argparse's: every keyword reaches `_defaults`, no file is read -/
-def SetDefaultsFull : Prop :=
-  ∀ (kw : List Str) (cpTruthy : Bool), setDefaultsPassed [] kw = kw ∧ setDefaultsReadsFile kw cpTruthy = false
-
-/-- open finding C09-set-defaults-config-path: a user destination called `config_path` is swallowed by the method's
-    own first parameter (parsing.py:385) and treated as a file to read -/
-theorem c09_set_defaults_witness : ¬ SetDefaultsFull := by
-  intro h
-  have := (h ["config_path".toList] true).2
-  simp [setDefaultsReadsFile] at this
-
-/-- `_partial`: keywords other than `config_path` that do not name a registered dataclass destination all reach
-    argparse's `_defaults`, and no file is read -/
-theorem c09_set_defaults_partial (wd kw : List Str) (t : Bool) (h1 : "config_path".toList ∉ kw) (h2 : ∀ k ∈ kw, k ∉ wd) :
-    setDefaultsPassed wd kw = kw ∧ setDefaultsReadsFile kw t = false := by
-  have hr : setDefaultsReadsFile kw t = false := by
-    unfold setDefaultsReadsFile
-    cases hc : kw.contains "config_path".toList with
-    | false => rfl
-    | true => exact absurd (List.contains_iff_mem.mp hc) h1
-  refine ⟨?_, hr⟩
+/-- `parser.set_defaults(**kw)` behaves like argparse's: every keyword that does not name a registered dataclass
+    destination reaches `_defaults`, and no file is read (FULL since the fix a66f307 made the method's own
+    `config_path` parameter positional-only; before, a keyword of that name was swallowed) -/
+theorem c09_set_defaults (wd kw : List Str) (h : ∀ k ∈ kw, k ∉ wd) :
+    setDefaultsPassed wd kw = kw ∧ setDefaultsReadsFile kw = false := by
+  refine ⟨?_, rfl⟩
   unfold setDefaultsPassed
   apply List.filter_eq_self.mpr
   intro k hk
-  have hne : (k == "config_path".toList) = false := beq_eq_false_iff_ne.mpr (fun e => h1 (e ▸ hk))
-  have hw : wd.contains k = false := by
-    cases hc : wd.contains k with
-    | false => rfl
-    | true => exact absurd (List.contains_iff_mem.mp hc) (h2 k hk)
-  rw [hne, hw]; rfl
+  cases hc : wd.contains k with
+  | false => rfl
+  | true => exact absurd (List.contains_iff_mem.mp hc) (h k hk)
 
-example : "config_path".toList ∉ [sFoo, sEx] ∧ ∀ k ∈ [sFoo, sEx], k ∉ [sCfg] := by decide
+/-- without registered dataclasses it is exactly argparse's `set_defaults` -/
+theorem c09_set_defaults_full (kw : List Str) : setDefaultsPassed [] kw = kw ∧ setDefaultsReadsFile kw = false :=
+  c09_set_defaults [] kw (fun _ _ => by simp)
+
+/-- regression example of the fixed finding C09-set-defaults-config-path: the keyword `config_path` is passed on -/
+example : setDefaultsPassed [sCfg] ["config_path".toList, sFoo, sCfg] = ["config_path".toList, sFoo] := by decide
+
+example : ∀ k ∈ ["config_path".toList, sFoo, sEx], k ∉ [sCfg] := by decide
 
 end Examples
 
